@@ -139,7 +139,7 @@ Qed.
 
 Lemma lib_sentence sep c ws : is_sep sep c -> words_ok ws -> lib (join sep ws) = join [x20] ws.
 Proof.
-  intros Hsep Hws. rewrite (LC1 _ Hlib) by (apply (xsafe_sentence sep c); assumption).
+  intros Hsep Hws. rewrite (LC1 _ Hlib) by (first [apply (valid_join sep c); assumption|apply (xsafe_sentence sep c); assumption]).
   apply (nfkd_join sep c); assumption.
 Qed.
 
